@@ -13,8 +13,11 @@ package sarama
 
 import (
 	"crypto/sha1"
+	"encoding/binary"
 	"encoding/hex"
 	"fmt"
+	"io"
+	"net"
 	"reflect"
 	"sort"
 	"strings"
@@ -35,10 +38,12 @@ type vdSubject struct {
 	run func(buf []byte) ([]string, error)
 	// runAt decodes with another protocol version than the bytes were written in (what a
 	// client does when the broker answers in a version the client did not ask for)
-	runAt   func(buf []byte, ver int16) ([]string, error)
-	vers    []int16 // the versions with a distinct layout for this type
-	hasRecs bool
-	comp    bool // a compressed payload is involved (allocation clause allows for inflation)
+	runAt    func(buf []byte, ver int16) ([]string, error)
+	vers     []int16                   // the versions with a distinct layout for this type
+	extra    func(tp *vdTape) []vdCase // subject-specific additional cases
+	allowKiB int                       // allocation the subject legitimately makes besides the proportional bound
+	hasRecs  bool
+	comp     bool // a compressed payload is involved (allocation clause allows for inflation)
 }
 
 func (s *vdSubject) final(inner []byte) []byte {
@@ -313,13 +318,27 @@ func vdBatchDigests(b *RecordBatch) []string {
 	for _, r := range b.Records {
 		out = append(out, vdRecordDigest(r))
 	}
+	if b.PartialTrailingRecord {
+		out = append(out, vdPartialMark)
+	}
 	return out
 }
+
+// vdPartialMark: the decoder itself flagged what it returned as incomplete (partial trailing message / batch,
+// overflow message, partial fetch block) - the documented way of dropping a cut-off tail
+const vdPartialMark = "~partial"
+
+// vdCutMark separates the batches of a fetch block in the digest list: FetchResponseBlock.decode drops whole
+// trailing batches it cannot complete once it has decoded at least one ("not an error" by design)
+const vdCutMark = "~cut"
 
 // the checksummed content of a legacy message (the offset is outside the CRC)
 func vdMsgSetDigests(ms *MessageSet, out []string, depth int) []string {
 	if ms == nil || depth > 4 {
 		return out
+	}
+	if ms.PartialTrailingMessage || ms.OverflowMessage {
+		out = append(out, vdPartialMark)
 	}
 	for _, blk := range ms.Messages {
 		if blk == nil || blk.Msg == nil {
@@ -371,8 +390,12 @@ func vdFetchDigests(fr *FetchResponse) []string {
 			if b == nil {
 				continue
 			}
+			if b.Partial {
+				out = append(out, vdPartialMark)
+			}
 			for _, rs := range b.RecordsSet {
 				out = vdRecordsDigests(rs, out)
+				out = append(out, vdCutMark) // end of one batch / message set of the block
 			}
 		}
 	}
@@ -733,11 +756,121 @@ func vdGroupSubjects() []*vdSubject {
 	return out
 }
 
+// ---------------------------------------------------------------- whole frames through a real Broker
+
+// vdFrameRun: a raw loopback server reads one request and answers with exactly the given bytes, then closes;
+// a REAL Broker (broker.go: sendAndReceive, responseReceiver, response_header.go) makes the call. The call
+// must return a value or an error; a panic in the receiver goroutine kills the worker process (observed by
+// the parent), a call that never returns is a hang.
+func vdFrameRun(hv int16) func([]byte) ([]string, error) {
+	return func(frame []byte) ([]string, error) {
+		ln, err := net.Listen("tcp", "127.0.0.1:0")
+		if err != nil {
+			return nil, nil // no verdict possible about sarama: treated like a valid run (never happens on loopback)
+		}
+		defer ln.Close()
+		go func() {
+			c, err := ln.Accept()
+			if err != nil {
+				return
+			}
+			defer c.Close()
+			c.SetDeadline(time.Now().Add(5 * time.Second))
+			hdr := make([]byte, 4)
+			if _, err := io.ReadFull(c, hdr); err != nil {
+				return
+			}
+			if _, err := io.CopyN(io.Discard, c, int64(binary.BigEndian.Uint32(hdr))); err != nil {
+				return
+			}
+			c.Write(frame)
+		}()
+		conf := NewConfig()
+		conf.Version = V2_4_0_0
+		conf.Net.DialTimeout = 2 * time.Second
+		conf.Net.ReadTimeout = 2 * time.Second
+		conf.Net.WriteTimeout = 2 * time.Second
+		b := NewBroker(ln.Addr().String())
+		if err := b.Open(conf); err != nil {
+			return nil, err
+		}
+		defer b.Close()
+		if hv == 0 {
+			_, err = b.GetMetadata(&MetadataRequest{Version: 1, Topics: []string{"t"}})
+		} else {
+			_, err = b.ListPartitionReassignments(&ListPartitionReassignmentsRequest{TimeoutMs: 1000})
+		}
+		return nil, err
+	}
+}
+
+func vdFrameSubjects() []*vdSubject {
+	var out []*vdSubject
+	for hv := int16(0); hv <= 1; hv++ {
+		hv := hv
+		var body []byte
+		name := "Broker.frame/MetadataRequest.v1"
+		if hv == 0 {
+			rack := "r"
+			body = vdMustEncode(&MetadataResponse{Version: 1, ControllerID: 1,
+				Brokers: []*Broker{{id: 1, addr: "h1:9092", rack: &rack}},
+				Topics:  []*TopicMetadata{{Name: "t", Partitions: []*PartitionMetadata{{ID: 0, Leader: 1, Replicas: []int32{1}, Isr: []int32{1}}}}}})
+		} else {
+			name = "Broker.frame/ListPartitionReassignmentsRequest.v0"
+			r := &ListPartitionReassignmentsResponse{}
+			r.AddBlock("t", 0, []int32{1, 2}, []int32{2}, []int32{1})
+			body = vdMustEncode(r)
+		}
+		hl := 4
+		if hv == 1 {
+			hl = 5
+		}
+		frame := make([]byte, 4, 8+hl+len(body))
+		binary.BigEndian.PutUint32(frame, uint32(hl+len(body)))
+		frame = append(frame, 0, 0, 0, 0) // correlation id of the first request of a fresh Broker
+		if hv == 1 {
+			frame = append(frame, 0)
+		}
+		hdrLen := len(frame)
+		frame = append(frame, body...)
+		out = append(out, &vdSubject{
+			name: name, ver: hv, valid: frame,
+			tape: func(b []byte, tp *vdTape) error {
+				if len(b) < hdrLen {
+					return ErrInsufficientData
+				}
+				return (&responseHeader{}).decode(vdNewTapeDec(b[:hdrLen], tp), hv)
+			},
+			run: vdFrameRun(hv),
+			extra: func(tp *vdTape) []vdCase {
+				// frame lengths around the header size, and around the response size cap
+				var cs []vdCase
+				for _, l := range []int{1, 3, 4, 5, 7, 8, 9, int(MaxResponseSize), int(MaxResponseSize) + 1} {
+					for _, cut := range []bool{false, true} {
+						b := append([]byte(nil), frame...)
+						binary.BigEndian.PutUint32(b, uint32(l))
+						if cut { // nothing behind the header
+							b = b[:hdrLen]
+						}
+						cs = append(cs, vdCase{Kind: "frame", Trig: fmt.Sprintf("framelen=%d", l), Prim: "getInt32", Caller: "(*responseHeader).decode", Pos: 0, inner: b})
+					}
+				}
+				return cs
+			},
+			// the receiver allocates what the frame announces, up to MaxResponseSize (the documented cap), plus
+			// connection / metrics set-up
+			allowKiB: int(MaxResponseSize)/1024 + 4096,
+		})
+	}
+	return out
+}
+
 // vdCorpus builds the whole corpus, in a fixed order.
 func vdCorpus() ([]*vdSubject, []vdSkip) {
 	var skips []vdSkip
 	var out []*vdSubject
 	out = append(out, vdGroupSubjects()...)
+	out = append(out, vdFrameSubjects()...)
 	out = append(out, vdRecordSubjects()...)
 	out = append(out, vdFetchSubjects()...)
 	out = append(out, vdResponseSubjects(&skips)...)
